@@ -13,6 +13,10 @@ CLAIMED = {
    text="Machine-checked proof (Lean 4, full): one *_spec theorem per exported function of pkg/slice (40 theorems) proving, for all heaps, all valid slice values (any offset/len/cap), all element types and callbacks, that the function returns exactly its List specification (map, mapIdx, filter, flatMap, flatten, ++, take/drop, head?/tail/getLast?/dropLast, zipWith, foldl, all/any/find?, first-occurrence de-duplication, sorted permutation) under exactly the domain guard the Go code has, plus *_panics theorems for the error branches. Tied to /repo by the regenerated function inventory and by exhaustive small-slice x every-function x every-parameter correspondence runs against the real package.",
    design="§5 C13", technique="Lean 4 theorems (loop invariants over a Go slice heap model) + exhaustive small-domain correspondence with the real package",
    note="Trusted: Lean kernel; the heap model; slices.SortFunc assumed to leave an ascending permutation (checked on every observed call); the named callback family is implemented twice (Go, Lean). Integers unbounded in the model."),
+ "C08": dict(
+   text="Machine-checked proof (Lean 4): climb_eq_group proves for EVERY operator chain (any length, operators, operands, any precedence table) that the recursion scheme of parseExprWithPrec/parseBinAfter (minPrec, Precedence+1 for the right operand) returns the reference grouping (insertion into the right spine = grouping by rank, left-associative; validated by group_flatten, group_canon); table_is_published proves by decide that the REGENERATED binOpMap equals the published table, fact_precedenceUses pins the comparison and the +1. Partial at token level: the token parser with psSkipEOL and the term parser (application, not, parentheses) is an executable model tied by execution (every oracle answer re-checked against group) and by the c08.chain correspondence with the real parser+emitter (all chains of <=3/4 of the 12 operators x 3 operand shapes exhaustively, random chains with pipes/not/parens/line breaks), not by a Lean refinement proof.",
+   design="§5 C08", technique="Lean 4 theorem (precedence climbing = reference grouping, induction on fuel) + decide over regenerated table + exhaustive/ random correspondence through the real parser and emitter",
+   note="Trusted: Lean kernel; chain abstraction of the parser; go/ast extractor; go/parser reading of the emitted expression; table-driven reference in the harness for the search."),
  "C10": dict(
    text="Machine-checked proof (Lean 4, full): opEqual_iff proves for ALL first-order Folang values a, b (any nesting of ints, strings, bools, tuples, records with any field capitalisation, unions, slices) and ALL Go representations of them (each empty slice independently nil or non-nil) that the model of frt.OpEqual = cmp.Equal+Exporter+EquateEmpty never panics and returns decide(a = b); reflexivity, symmetry, transitivity and <> = negation follow. Witness theorems show plain cmp.Equal (before fix 01c3b5f) violates both clauses. Tied to /repo by the eq.pair stream: pairs of values of 12 real fc-emitted types through the emitted =/<> functions vs the model.",
    design="§5 C10", technique="Lean 4 theorem (mutual structural induction over values) + correspondence on fc-emitted types",
